@@ -201,6 +201,40 @@ pub fn check_block(ctx: &mut Ctx, lines: &[Vec<u8>]) -> bool {
             return fail(ctx, "block-accepted", format!("Headers::try_from accepted a block whose line #{} is fatal ({})", i, e.name()));
         }
     }
+    // ---- the block ends at its first empty line: whatever follows it (a body, another request) is not
+    // part of it, so appending text after the terminator must change nothing
+    if !block_non_utf8 {
+        const TAILS: [&[u8]; 8] = [
+            b"Content-Length: 9\r\n",
+            b"nocolon\r\n",
+            b"Accept-Encoding: identity;q=0\r\n\r\n",
+            b"X-Tail: 1\r\nX-Tail2: 2\r\n\r\n",
+            b"Expect: 100-continue\r\n",
+            b"Transfer-Encoding: chunked\r\nAccept: text/plain\r\n",
+            b"Content-Length: x\r\n",
+            b"GET / HTTP/1.1\r\nContent-Length: 3\r\n\r\nabc",
+        ];
+        let tail = TAILS[(f.0 % TAILS.len() as u64) as usize];
+        let mut block2 = block.clone();
+        block2.extend_from_slice(tail);
+        let rb2 = match guarded(|| Headers::try_from(&block2)) {
+            Ok(r) => r,
+            Err(p) => return fail(ctx, "panic", format!("Headers::try_from panicked on the block followed by {:?}: {}", show(tail), p)),
+        };
+        ctx.rep.count("blocks_reparsed_with_text_after_the_terminator");
+        let same = match (&rb, &rb2) {
+            (Ok(a), Ok(b)) => state_of(a) == state_of(b),
+            (Err(a), Err(b)) => ek(a) == ek(b),
+            _ => false,
+        };
+        if !same {
+            return fail(
+                ctx,
+                "block-reads-past-its-terminator",
+                format!("Headers::try_from gives {:?} for the block and {:?} when {:?} follows its empty line", rb.as_ref().map(state_of).map_err(|e| format!("{:?}", e)), rb2.as_ref().map(state_of).map_err(|e| format!("{:?}", e)), show(tail)),
+            );
+        }
+    }
     false
 }
 
